@@ -3,13 +3,19 @@ import hashlib, json, os, re, subprocess, sys, time, shutil, concurrent.futures
 
 VERIF = os.path.dirname(os.path.dirname(os.path.abspath(__file__)))
 REPO = os.environ.get("VERIF_REPO", "/repo")
-CACHE = os.path.join(VERIF, ".cache")
-COQ = os.path.join(VERIF, "coq")
+# VERIF_REPO=<another checkout> (mutation tests, seeded changes, background regressions): EVERYTHING that is built from
+# or written about that checkout lives under .cache/alt/ — its own cargo target dirs, work dirs, replays and evidence —
+# so that nothing built from a mutated tree can ever be picked up by a normal run (only the Coq build products, which do
+# not depend on /repo except through the translated tables, and the Coq lock are shared).
+ALT = REPO != "/repo"
+CACHE = os.path.join(VERIF, ".cache", "alt-" + re.sub(r"[^A-Za-z0-9_.-]", "_", REPO.strip("/"))) if ALT else os.path.join(VERIF, ".cache")   # one per checkout: snapshot runs on different checkouts are independent
+OUTDIR = CACHE if ALT else VERIF          # evidence/ and replays/ of a run
+COQ = os.path.join(CACHE, "coq") if ALT else os.path.join(VERIF, "coq")   # alt runs build in their own copy: the translated tables differ
 COV = os.environ.get("VERIF_COV") == "1"   # coverage measurement of /repo under the checks' inputs (tools/coverage.sh)
 TARGET = os.path.join(CACHE, "target-cov" if COV else "target")
 GUARD = "device_driver_verif"
 NCPU = 16
-LOCK = os.path.join(CACHE, "coq.lock")
+LOCK = os.path.join(VERIF, ".cache", "coq.lock")
 
 ALLOWED_ASSUMPTIONS = set()  # no axiom is allowed: every theorem must be closed
 
@@ -29,8 +35,8 @@ class Ctx:
         self.known = []
         self.notes = []
         os.makedirs(CACHE, exist_ok=True)
-        os.makedirs(os.path.join(VERIF, "evidence"), exist_ok=True)
-        os.makedirs(os.path.join(VERIF, "replays"), exist_ok=True)
+        os.makedirs(os.path.join(OUTDIR, "evidence"), exist_ok=True)
+        os.makedirs(os.path.join(OUTDIR, "replays"), exist_ok=True)
         self.work = os.path.join(CACHE, "work", prop)
         os.makedirs(self.work, exist_ok=True)
 
@@ -57,7 +63,15 @@ def run(cmd, cwd=None, timeout=1800, env=None, input=None):
 # ------------------------------------------------------------------ Coq
 
 def translate_tables():
-    rc, out = run([sys.executable, os.path.join(VERIF, "tools", "translate_tables.py")])
+    env = None
+    if ALT:
+        # a private copy of the Coq tree (sources AND build products, timestamps kept so that only what depends on a
+        # changed translated table is rebuilt); the translator writes its tables there
+        os.makedirs(COQ, exist_ok=True)
+        run(["flock", LOCK, "rsync", "-a", "--delete", "--exclude", "Makefile*", "--exclude", ".Makefile.d",
+             os.path.join(VERIF, "coq") + "/", COQ + "/"])
+        env = {"VERIF_GEN_OUT": os.path.join(COQ, "gen")}
+    rc, out = run([sys.executable, os.path.join(VERIF, "tools", "translate_tables.py")], env=env)
     return rc == 0, out
 
 
@@ -340,7 +354,7 @@ def load_known_findings(prop):
 def write_replay(ctx, obj):
     blob = json.dumps(obj, sort_keys=True, indent=1)
     h = hashlib.sha1(blob.encode()).hexdigest()[:12]
-    p = os.path.join(VERIF, "replays", f"{ctx.prop}-{h}.json")
+    p = os.path.join(OUTDIR, "replays", f"{ctx.prop}-{h}.json")
     with open(p, "w") as f:
         f.write(blob + "\n")
     return p
@@ -395,7 +409,7 @@ def write_evidence(ctx, coq_info, coverage, assumptions=None, checker_cmd=None):
         "wall_s": round(time.time() - ctx.t0, 2),
         "violations": ctx.violations,
     }
-    p = os.path.join(VERIF, "evidence", f"{ctx.prop}.json")
+    p = os.path.join(OUTDIR, "evidence", f"{ctx.prop}.json")
     with open(p, "w") as f:
         json.dump(ev, f, indent=1, sort_keys=True)
         f.write("\n")
